@@ -257,6 +257,30 @@ example : split (.str [0x68, 0xC3, 0xA9, 0x6C, 0x6C, 0x6F]) (.str []) =
     .ok (.arr .plain [.str [0x68], .str [0xC3, 0xA9], .str [0x6C], .str [0x6C], .str [0x6F]]) :=
   split_empty_sep_codepoints hello hello_scalars (by decide)
 
+theorem concat_pieces (l : List Nat) : (l.map encodeRune).foldr (· ++ ·) [] = encodeAll l := by
+  induction l with
+  | nil => rfl
+  | cons c l ih => rw [List.map_cons, List.foldr_cons, ih, encodeAll_cons]
+
+/-- `split(s, '', n)`: at most `n` cuts, each after one code point; the remainder is kept whole -/
+theorem split_count_empty_sep_codepoints (cs : List Nat) (h : Scalars cs) (hne : cs ≠ []) (n : Int) (hn : 0 < n) :
+    splitCount (.str (encodeAll cs)) (.str []) (.num (.int .i64 n)) =
+      .ok (strsToArr (if n.toNat + 1 ≥ cs.length then cs.map encodeRune
+                      else (cs.take n.toNat).map encodeRune ++ [encodeAll (cs.drop n.toNat)])) := by
+  have he := isEmpty_encodeAll cs hne
+  have a1 : ¬ n < 0 := by omega
+  have a2 : ¬ n = 0 := by omega
+  show (if n < 0 then _ else if n = 0 then _ else if (encodeAll cs).isEmpty then _ else _) = _
+  rw [if_neg a1, if_neg a2, he]
+  show Res.ok (strsToArr (splitRunes (encodeAll cs) (some n.toNat))) = _
+  simp only [splitRunes, runePieces_encodeAll cs h, List.length_map, ← List.map_take, ← List.map_drop,
+    concat_pieces]
+
+/-- split("héllo", "", 2) = ["h", "é", "llo"] -/
+example : splitCount (.str [0x68, 0xC3, 0xA9, 0x6C, 0x6C, 0x6F]) (.str []) (.num (.int .i64 2)) =
+    .ok (.arr .plain [.str [0x68], .str [0xC3, 0xA9], .str [0x6C, 0x6C, 0x6F]]) :=
+  split_count_empty_sep_codepoints hello hello_scalars (by decide) 2 (by decide)
+
 /-! ### 9. padding -/
 
 theorem pad_string (n : Nat) (p : Nat) :
@@ -440,5 +464,232 @@ example : ∃ out, reverse (.str [0x68, 0xC3, 0xA9]) = .ok (.str out) ∧ validU
   valid_out_reverse _ (by decide)
 /-- the hypothesis matters: reversing the invalid string `C3` (a lone lead byte) yields U+FFFD, not `C3` -/
 example : reverse (.str [0xC3]) = .ok (.str [0xEF, 0xBF, 0xBD]) := by rfl
+
+/-! ### 11. `find_first` / `find_last`: positions in, positions out are code point positions
+
+  `indexOf` / `lastIndexOf` (the model of `strings.Index` / `strings.LastIndex`) are polymorphic in what a list
+  element is, so the same functions applied to the code point lists are the specification: `indexOf cs ps` is the
+  least code point position at which `ps` occurs in `cs` (`indexOf_spec`), `lastIndexOf cs ps` the greatest
+  (`lastIndexOf_spec`). -/
+
+theorem indexOf_spec (s p : List Nat) (k : Nat) (h : indexOf s p = some k) :
+    k ≤ s.length ∧ p <+: s.drop k ∧ ∀ j, j < k → ¬ p <+: s.drop j := by
+  obtain ⟨i, hk, hi, hp, hmin⟩ := indexOfAux_spec s p 0 k h
+  have : k = i := by omega
+  subst this
+  exact ⟨hi, hp, hmin⟩
+
+theorem indexOf_none (s p : List Nat) (h : indexOf s p = none) (j : Nat) : ¬ p <+: s.drop j :=
+  indexOfAux_none s p 0 h j
+
+theorem lastIndexOf_spec (s p : List Nat) (k : Nat) (h : lastIndexOf s p = some k) :
+    k ≤ s.length ∧ p <+: s.drop k ∧ ∀ j, k < j → j ≤ s.length → ¬ p <+: s.drop j := by
+  rcases lastIndexOfAux_spec s p 0 none k h with ⟨hb, _⟩ | ⟨i, hk, hi, hp, hmax⟩
+  · cases hb
+  · have : k = i := by omega
+    subst this
+    exact ⟨hi, hp, hmax⟩
+
+/-- `find_first(s, p)`: the result is the code point position of the first occurrence -/
+theorem find_first_codepoint_index (cs ps : List Nat) (hcs : Scalars cs) (hps : Scalars ps)
+    (hc : cs ≠ []) (hp : ps ≠ []) :
+    findFirst (.str (encodeAll cs)) (.str (encodeAll ps)) =
+      match indexOf cs ps with
+      | none => .ok .null
+      | some k => .ok (.num (.int .i64 k)) := by
+  show (if (encodeAll cs).isEmpty || (encodeAll ps).isEmpty then _ else _) = _
+  rw [isEmpty_encodeAll cs hc, isEmpty_encodeAll ps hp, indexOf_encodeAll cs ps hcs hps hp]
+  cases hk : indexOf cs ps with
+  | none => rfl
+  | some k =>
+    show Res.ok (runeIndexVal _ _) = _
+    unfold runeIndexVal
+    rw [runeCount_take_boundary cs hcs k (indexOf_le _ _ _ hk)]
+
+/-- `find_last(s, p)` likewise -/
+theorem find_last_codepoint_index (cs ps : List Nat) (hcs : Scalars cs) (hps : Scalars ps)
+    (hc : cs ≠ []) (hp : ps ≠ []) :
+    findLast (.str (encodeAll cs)) (.str (encodeAll ps)) =
+      match lastIndexOf cs ps with
+      | none => .ok .null
+      | some k => .ok (.num (.int .i64 k)) := by
+  show (if (encodeAll cs).isEmpty || (encodeAll ps).isEmpty then _ else _) = _
+  rw [isEmpty_encodeAll cs hc, isEmpty_encodeAll ps hp, lastIndexOf_encodeAll cs ps hcs hps hp]
+  cases hk : lastIndexOf cs ps with
+  | none => rfl
+  | some k =>
+    show Res.ok (runeIndexVal _ _) = _
+    unfold runeIndexVal
+    rw [runeCount_take_boundary cs hcs k (lastIndexOf_le _ _ _ hk)]
+
+/-- find_first("héllo", "l") = 2 (byte offset 3), find_last = 3 (byte offset 4) -/
+example : findFirst (.str [0x68, 0xC3, 0xA9, 0x6C, 0x6C, 0x6F]) (.str [0x6C]) = .ok (.num (.int .i64 2)) :=
+  find_first_codepoint_index hello [0x6C] hello_scalars (by unfold Scalars; decide) (by decide) (by decide)
+example : findLast (.str [0x68, 0xC3, 0xA9, 0x6C, 0x6C, 0x6F]) (.str [0x6C]) = .ok (.num (.int .i64 3)) :=
+  find_last_codepoint_index hello [0x6C] hello_scalars (by unfold Scalars; decide) (by decide) (by decide)
+/-- a continuation byte alone (`A9`, not a valid pattern) would match inside `é`; a valid pattern never does:
+    "©" = `C2 A9` is not found in "é" = `C3 A9` -/
+example : findFirst (.str [0xC3, 0xA9]) (.str [0xC2, 0xA9]) = .ok .null :=
+  find_first_codepoint_index [0xE9] [0xA9] (by unfold Scalars; decide) (by unfold Scalars; decide)
+    (by decide) (by decide)
+
+/-- the `start` argument is a code point position (negative values mean 0, values past the end give null) -/
+theorem start_offset_codepoints (cs : List Nat) (h : Scalars cs) (i : Int) :
+    startOffset (encodeAll cs) i =
+      if i < 0 then some 0
+      else if i ≤ cs.length then some (encodeAll (cs.take i.toNat)).length
+      else none :=
+  startOffset_encodeAll cs h i
+
+/-- code point level specification of `find_first(s, p, start)` / `find_last(s, p, start)` -/
+def cpFindFrom (last : Bool) (cs ps : List Nat) (i : Int) : Option Nat :=
+  if i > cs.length then none
+  else ((if last then lastIndexOf (cs.drop i.toNat) ps else indexOf (cs.drop i.toNat) ps)).map (· + i.toNat)
+
+theorem find_from_codepoints (last : Bool) (cs ps : List Nat) (hcs : Scalars cs) (hps : Scalars ps)
+    (hp : ps ≠ []) (i : Int) :
+    findFrom last (.str (encodeAll cs)) (.str (encodeAll ps)) (.num (.int .i64 i)) =
+      match cpFindFrom last cs ps i with
+      | none => .ok .null
+      | some k => .ok (.num (.int .i64 k)) := by
+  rw [findFrom_str, startOffset_encodeAll' cs hcs, cpFindFrom]
+  by_cases h1 : i > (cs.length : Int)
+  · simp [h1]
+  · simp only [h1, if_false, drop_boundary]
+    have hlen : i.toNat ≤ cs.length := by omega
+    cases last
+    · simp only [Bool.false_eq_true, if_false]
+      rw [indexOf_encodeAll _ ps (hcs.drop _) hps hp]
+      cases hk : indexOf (cs.drop i.toNat) ps with
+      | none => rfl
+      | some r =>
+        have := indexOf_le _ _ _ hk
+        rw [List.length_drop] at this
+        simp only [Option.map_some]
+        rw [runeIndexVal_boundary cs hcs _ _ (by omega)]
+    · simp only [if_true]
+      rw [lastIndexOf_encodeAll _ ps (hcs.drop _) hps hp]
+      cases hk : lastIndexOf (cs.drop i.toNat) ps with
+      | none => rfl
+      | some r =>
+        have := lastIndexOf_le _ _ _ hk
+        rw [List.length_drop] at this
+        simp only [Option.map_some]
+        rw [runeIndexVal_boundary cs hcs _ _ (by omega)]
+
+/-- find_first("héllo", "l", 3) = 3: start 3 is the second `l` (byte 4), not byte 3 -/
+example : findFirstFrom (.str [0x68, 0xC3, 0xA9, 0x6C, 0x6C, 0x6F]) (.str [0x6C]) (.num (.int .i64 3))
+    = .ok (.num (.int .i64 3)) :=
+  find_from_codepoints false hello [0x6C] hello_scalars (by unfold Scalars; decide) (by decide) 3
+
+/-- the `finish` argument is a code point position, clamped to the end of the string (`take` beyond the length is
+    the whole list); a negative one gives null -/
+theorem finish_offset_codepoints (cs : List Nat) (h : Scalars cs) (j : Int) (hj : 0 ≤ j) :
+    finishOffset (encodeAll cs) j = some (encodeAll (cs.take j.toNat)).length := by
+  rw [finishOffset_encodeAll cs h, if_neg (by omega)]
+
+theorem finish_offset_negative (s : Bytes) (j : Int) (hj : j < 0) : finishOffset s j = none := by
+  unfold finishOffset; rw [if_pos hj]
+
+/-- code point level specification of `find_first(s, p, start, finish)` / `find_last(…)`: search the code points
+    `start ≤ k < min(finish, length)` -/
+def cpFindBetween (last : Bool) (cs ps : List Nat) (i j : Int) : Option Nat :=
+  if i > cs.length then none
+  else if j < 0 then none
+  else if i.toNat > min j.toNat cs.length then none
+  else
+    let w := (cs.drop i.toNat).take (min j.toNat cs.length - i.toNat)
+    ((if last then lastIndexOf w ps else indexOf w ps)).map (· + i.toNat)
+
+theorem find_between_codepoints (last : Bool) (cs ps : List Nat) (hcs : Scalars cs) (hps : Scalars ps)
+    (hp : ps ≠ []) (i j : Int) :
+    findBetween last (.str (encodeAll cs)) (.str (encodeAll ps)) (.num (.int .i64 i)) (.num (.int .i64 j)) =
+      match cpFindBetween last cs ps i j with
+      | none => .ok .null
+      | some k => .ok (.num (.int .i64 k)) := by
+  rw [findBetween_str, startOffset_encodeAll' cs hcs, finishOffset_encodeAll' cs hcs j, cpFindBetween]
+  by_cases h1 : i > (cs.length : Int)
+  · simp [h1]
+  · simp only [h1, if_false]
+    by_cases h2 : j < 0
+    · simp [h2]
+    · simp only [h2, if_false]
+      have hlen : i.toNat ≤ cs.length := by omega
+      generalize hb : min j.toNat cs.length = b
+      have hbl : b ≤ cs.length := by omega
+      by_cases h3 : i.toNat > b
+      · have := take_boundary_len_strict cs i.toNat b h3 hlen
+        simp [h3, this]
+      · have h3' : i.toNat ≤ b := by omega
+        have hm := take_boundary_len_mono cs i.toNat b h3'
+        have h4 : ¬ (encodeAll (cs.take i.toNat)).length > (encodeAll (cs.take b)).length := by omega
+        simp only [h3, h4, if_false, window_boundary cs _ _ h3']
+        have hw : Scalars ((cs.drop i.toNat).take (b - i.toNat)) := (hcs.drop _).take _
+        have hwl : ((cs.drop i.toNat).take (b - i.toNat)).length = b - i.toNat := by
+          rw [List.length_take, List.length_drop]; omega
+        cases last
+        · simp only [Bool.false_eq_true, if_false]
+          rw [indexOf_encodeAll _ ps hw hps hp]
+          cases hk : indexOf ((cs.drop i.toNat).take (b - i.toNat)) ps with
+          | none => rfl
+          | some r =>
+            have := indexOf_le _ _ _ hk
+            rw [hwl] at this
+            simp only [Option.map_some]
+            rw [List.take_take, Nat.min_eq_left this, runeIndexVal_boundary cs hcs _ _ (by omega)]
+        · simp only [if_true]
+          rw [lastIndexOf_encodeAll _ ps hw hps hp]
+          cases hk : lastIndexOf ((cs.drop i.toNat).take (b - i.toNat)) ps with
+          | none => rfl
+          | some r =>
+            have := lastIndexOf_le _ _ _ hk
+            rw [hwl] at this
+            simp only [Option.map_some]
+            rw [List.take_take, Nat.min_eq_left this, runeIndexVal_boundary cs hcs _ _ (by omega)]
+
+/-- find_first("héllo", "l", 3, 5) = 3, and with finish 3 (exclusive) the second `l` is not found -/
+example : findFirstBetween (.str [0x68, 0xC3, 0xA9, 0x6C, 0x6C, 0x6F]) (.str [0x6C]) (.num (.int .i64 3))
+    (.num (.int .i64 5)) = .ok (.num (.int .i64 3)) :=
+  find_between_codepoints false hello [0x6C] hello_scalars (by unfold Scalars; decide) (by decide) 3 5
+example : findFirstBetween (.str [0x68, 0xC3, 0xA9, 0x6C, 0x6C, 0x6F]) (.str [0x6C]) (.num (.int .i64 3))
+    (.num (.int .i64 3)) = .ok .null :=
+  find_between_codepoints false hello [0x6C] hello_scalars (by unfold Scalars; decide) (by decide) 3 3
+
+/-- A `finish` beyond the last code point is clamped whether or not it is beyond the last *byte* (before the fix of
+    the defect this property exposed, 6 — more than the 5 code points, not more than the 6 bytes — gave null):
+    find_first("héllo", "o", 0, 5) = find_first("héllo", "o", 0, 6) = find_first("héllo", "o", 0, 7) = 4, exactly as
+    for the all-ASCII five-letter word, find_first("hello", "o", 0, 6) = 4. -/
+example : findFirstBetween (.str [0x68, 0xC3, 0xA9, 0x6C, 0x6C, 0x6F]) (.str [0x6F]) (.num (.int .i64 0))
+    (.num (.int .i64 6)) = .ok (.num (.int .i64 4)) :=
+  find_between_codepoints false hello [0x6F] hello_scalars (by unfold Scalars; decide) (by decide) 0 6
+example : findFirstBetween (.str [0x68, 0xC3, 0xA9, 0x6C, 0x6C, 0x6F]) (.str [0x6F]) (.num (.int .i64 0))
+    (.num (.int .i64 5)) = .ok (.num (.int .i64 4)) :=
+  find_between_codepoints false hello [0x6F] hello_scalars (by unfold Scalars; decide) (by decide) 0 5
+example : findFirstBetween (.str [0x68, 0xC3, 0xA9, 0x6C, 0x6C, 0x6F]) (.str [0x6F]) (.num (.int .i64 0))
+    (.num (.int .i64 7)) = .ok (.num (.int .i64 4)) :=
+  find_between_codepoints false hello [0x6F] hello_scalars (by unfold Scalars; decide) (by decide) 0 7
+example : findLastBetween (.str [0x68, 0xC3, 0xA9, 0x6C, 0x6C, 0x6F]) (.str [0x6C]) (.num (.int .i64 0))
+    (.num (.int .i64 6)) = .ok (.num (.int .i64 3)) :=
+  find_between_codepoints true hello [0x6C] hello_scalars (by unfold Scalars; decide) (by decide) 0 6
+example : findFirstBetween (.str [0x68, 0x65, 0x6C, 0x6C, 0x6F]) (.str [0x6F]) (.num (.int .i64 0))
+    (.num (.int .i64 6)) = .ok (.num (.int .i64 4)) :=
+  find_between_codepoints false [0x68, 0x65, 0x6C, 0x6C, 0x6F] [0x6F] (by unfold Scalars; decide)
+    (by unfold Scalars; decide) (by decide) 0 6
+
+/-! ### 12. string ordering is code point ordering -/
+
+/-- Go's `<` on the UTF-8 bytes is the lexicographic order of the code point lists -/
+theorem bytesLt_codepoint_order (as bs : List Nat) (ha : Scalars as) (hb : Scalars bs) :
+    bytesLt (encodeAll as) (encodeAll bs) = decide (as < bs) := by
+  rw [bytesLt_encodeAll as bs ha hb, Bool.eq_iff_iff, cpLt_iff_lt]; simp
+
+/-- "z" < "é" < "€" < "😀" although the lead bytes are 7A, C3, E2, F0 and the lengths 1, 2, 3, 4 -/
+example : bytesLt (encodeAll [0x7A]) (encodeAll [0xE9]) = true ∧ bytesLt (encodeAll [0xE9]) (encodeAll [0x20AC]) = true
+    ∧ bytesLt (encodeAll [0x20AC]) (encodeAll [0x1F600]) = true ∧ bytesLt (encodeAll [0xE9, 0x61]) (encodeAll [0xE9]) = false := by
+  decide
+/-- (UTF-16 would order U+FF5E after U+1F600's surrogates `D83D DE00`; UTF-8 does not) -/
+example : bytesLt (encodeAll [0xFF5E]) (encodeAll [0x1F600]) = true :=
+  (bytesLt_codepoint_order [0xFF5E] [0x1F600] (by unfold Scalars; decide) (by unfold Scalars; decide)).trans
+    (by decide)
 
 end Jmes.C11
